@@ -1,16 +1,22 @@
 #!/bin/bash
-# ./check selftest [ID-prefix]  — sensitivity protocol: applies every seeded change under /verif/seeded (and the
-# hand-written ones under /verif/mutants) to /repo in turn, runs the quick check that is recorded as detecting it,
-# undoes the change, and reports DETECTED / MISSED. Not a property check; exit 1 if any recorded detection is missed.
+# ./check selftest [ID-prefix]  — sensitivity protocol: applies every seeded change under /verif/seeded to /repo in
+# turn, runs the quick check(s) recorded as detecting it, undoes the change, and reports DETECTED / MISSED together
+# with the signatures seen (also written to seeded/SELFTEST.txt). Not a property check; exit 1 if any recorded
+# detection is missed. Must not run at the same time as any other check (it patches /repo's working tree).
 cd /verif || exit 2
 missed=0
+out=seeded/SELFTEST.txt
+[ -z "${1:-}" ] && : > $out
 for d in seeded/${1:-}*/; do
+  [ -f "$d/meta.json" ] || continue
   id=$(basename $d)
   for chk in $(python3 -c "import json;print(' '.join(x['check'] for x in json.load(open('$d/meta.json'))['detected_by']))"); do
-    r=$(tools/try_mutant.sh $chk $PWD/$d/patch.diff quick 2>&1 | grep "^RESULT")
-    echo "$id via $chk: ${r##*: }"
+    log=$(tools/try_mutant.sh $chk $PWD/$d/patch.diff quick 2>&1)
+    r=$(echo "$log" | grep "^RESULT")
+    sigs=$(echo "$log" | grep -o "^violation: signature=[^ ]*" | sed 's/violation: signature=//' | sort -u | tr '\n' ' ')
+    echo "$id via $chk: ${r##*: } $sigs" | tee -a $out
     case "$r" in *DETECTED) ;; *) missed=$((missed+1));; esac
   done
 done
-echo "selftest: $missed missed"
+echo "selftest: $missed missed" | tee -a $out
 [ $missed -eq 0 ]
